@@ -95,7 +95,9 @@ class _GroupElem(ABC):
             assert nodes.max() + 1 <= Ncoords, error
         self.__nodes = nodes
         self.__Ncoords = Ncoords
-        self.__coord = coordinates[nodes]
+        # coordinates as floats whatever the type of the given array
+        # (projected coordinates are written into copies of it)
+        self.__coord = np.asarray(coordinates[nodes], dtype=float)
 
         # Map global nodes to local nodes
         # Global nodes correspond to the node positions in global coordinates, and local nodes correspond to the local positions in self.coord.
@@ -293,7 +295,7 @@ class _GroupElem(ABC):
     def coord(self, coord: _types.FloatArray) -> None:
         shape = (self.Ncoords, 3)
         assert coord.shape == shape, f"coord must be a {shape} array."
-        self.__coord = coord[self.nodes]
+        self.__coord = np.asarray(coord[self.nodes], dtype=float)
         self._InitMatrix()
 
     @property
